@@ -17,3 +17,6 @@ pub mod objective;
 pub mod one_node_per_tour;
 pub mod transition_cycle_tsp;
 pub mod transition_local_search;
+
+#[cfg(feature = "rssched_verif")]
+pub mod verif;
